@@ -17,6 +17,7 @@ import dadi
 from dadi import Godambe
 logging.getLogger('Inference').setLevel(logging.ERROR)
 np.seterr(all='ignore')
+import c19_impl_types as T          # same directory (this file is run as a script)
 
 
 def fl(x):
@@ -123,6 +124,28 @@ def op_godambe(c):
         boots = tuple(boots)
     pts = as_container(c.get('pts', [10]), c.get('pts_as', 'list'), dtype=int)
     eps = c['eps']
+    # ---- stream T (argument types): the same numbers in other python / numpy types, containers, layouts
+    ty = c.get('typed') or {}
+    FLAG = (lambda v: T.scalar(ty['flag_kind'], v)) if ty.get('flag_kind') else (lambda v: v)
+    if ty.get('data_kind'):
+        data = T.build_spectrum(ty['data_kind'], c['data'], shape, c.get('extra_mask'))
+    if ty.get('boots_kind'):
+        boots = [T.build_spectrum(ty['boots_kind'], b, shape, c.get('extra_mask')) for b in c.get('boots', [])]
+        if c.get('boots_as') == 'tuple':
+            boots = tuple(boots)
+    if ty.get('share') == 'data_is_boot0' and len(boots):
+        boots = type(boots)([data] + list(boots[1:]))           # (the case lists the data as its first bootstrap)
+    if ty.get('share') == 'boot_twice' and len(boots) >= 2:
+        boots = type(boots)([boots[0], boots[0]] + list(boots[2:]))     # (the case lists the first bootstrap twice)
+    if ty.get('p0_kind'):
+        p0 = T.build(ty['p0_kind'], c['p0'])
+    if ty.get('pts_kind'):
+        pts = T.build(ty['pts_kind'], c.get('pts', [10]))
+    if ty.get('eps_kind'):
+        eps = T.build(ty['eps_kind'], c['eps'])
+    snaps = lambda: [T.snap(p0), T.snap(pts), T.snap(eps), T.snap(np.ma.getdata(data)), T.snap(np.ma.getmaskarray(data)),
+                     [(T.snap(np.ma.getdata(b)), T.snap(np.ma.getmaskarray(b))) for b in boots]]
+    snap0 = snaps()
     rec = {'id': c['id']}
     inner = []
     orig = Godambe.get_godambe
@@ -153,45 +176,52 @@ def op_godambe(c):
         nested = c.get('nested')
         if nested is not None:
             nested = as_container([int(t) for t in nested], c.get('nested_as', 'list'), dtype=int)
+            if ty.get('nested_kind'):
+                nested = T.build(ty['nested_kind'], [int(t) for t in c['nested']])
         adj = c.get('adjusts')
         if adj is not None:
             adj = as_container(adj, c.get('adjusts_as', 'list'))
+        if adj is not None and ty.get('adjusts_kind'):
+            adj = T.build(ty['adjusts_kind'], c['adjusts'])
         fp = as_container(c['full_params'], c.get('fp_as', 'array')) if c.get('full_params') is not None else None
+        if fp is not None and ty.get('fp_kind'):
+            fp = T.build(ty['fp_kind'], c['full_params'])
+        snap1 = [T.snap(nested), T.snap(adj), T.snap(fp)]
         if fn == 'get_godambe':
             kw = {}
             if adj is not None:
                 kw['boot_theta_adjusts'] = adj
-            out = Godambe.get_godambe(func_ex, pts, boots, p0, data, eps, log=c.get('log', False),
-                                      just_hess=c.get('just_hess', False), **kw)
+            out = Godambe.get_godambe(func_ex, pts, boots, p0, data, eps, log=FLAG(c.get('log', False)),
+                                      just_hess=FLAG(c.get('just_hess', False)), **kw)
             rec['val'] = None
         elif fn == 'GIM_uncert':
             kw = {}
             if adj is not None:
                 kw['boot_theta_adjusts'] = adj
-            u, G, H = Godambe.GIM_uncert(func_ex, pts, boots, p0, data, log=c.get('log', False), multinom=c['multinom'],
-                                         eps=eps, return_GIM=True, **kw)
+            u, G, H = Godambe.GIM_uncert(func_ex, pts, boots, p0, data, log=FLAG(c.get('log', False)), multinom=FLAG(c['multinom']),
+                                         eps=eps, return_GIM=FLAG(True), **kw)
             u2 = Godambe.GIM_uncert(func_ex, pts, boots, p0, data, log=c.get('log', False), multinom=c['multinom'], eps=eps, **kw) \
                 if c.get('also_plain') else None
             rec['val'] = fll(u); rec['ret_G'] = fmat(G); rec['ret_H'] = fmat(H)
             if u2 is not None:
                 rec['val_plain'] = fll(u2)
         elif fn == 'FIM_uncert':
-            u, H = Godambe.FIM_uncert(func_ex, pts, p0, data, log=c.get('log', False), multinom=c['multinom'], eps=eps, return_FIM=True)
+            u, H = Godambe.FIM_uncert(func_ex, pts, p0, data, log=FLAG(c.get('log', False)), multinom=FLAG(c['multinom']), eps=eps, return_FIM=FLAG(True))
             rec['val'] = fll(u); rec['ret_H'] = fmat(H)
         elif fn == 'LRT_adjust':
             kw = {}
             if adj is not None:
                 kw['boot_theta_adjusts'] = adj
-            rec['val'] = [fl(Godambe.LRT_adjust(func_ex, pts, boots, p0, data, nested, multinom=c['multinom'], eps=eps, **kw))]
+            rec['val'] = [fl(Godambe.LRT_adjust(func_ex, pts, boots, p0, data, nested, multinom=FLAG(c['multinom']), eps=eps, **kw))]
         elif fn == 'Wald_stat':
             a, o = Godambe.Wald_stat(func_ex, pts, boots, p0, data, nested, fp,
-                                     multinom=c['multinom'], eps=eps, adj_and_org=True)
+                                     multinom=FLAG(c['multinom']), eps=eps, adj_and_org=FLAG(True))
             rec['val'] = [fl(a), fl(o)]
             if c.get('also_plain'):
                 rec['val_plain'] = [fl(Godambe.Wald_stat(func_ex, pts, boots, p0, data, nested, fp,
                                                          multinom=c['multinom'], eps=eps))]
         elif fn == 'score_stat':
-            a, o = Godambe.score_stat(func_ex, pts, boots, p0, data, nested, multinom=c['multinom'], eps=eps, adj_and_org=True)
+            a, o = Godambe.score_stat(func_ex, pts, boots, p0, data, nested, multinom=FLAG(c['multinom']), eps=eps, adj_and_org=FLAG(True))
             rec['val'] = [fl(a), fl(o)]
             if c.get('also_plain'):
                 rec['val_plain'] = [fl(Godambe.score_stat(func_ex, pts, boots, p0, data, nested, multinom=c['multinom'], eps=eps))]
@@ -204,7 +234,20 @@ def op_godambe(c):
     finally:
         Godambe.get_godambe = orig
     rec['inner'] = inner
-    rec['args_unchanged'] = bool(list(p0) == p0_list and (nested is None or [int(t) for t in nested] == [int(t) for t in c['nested']])
+    if ty:
+        try:
+            rec['typed_unchanged'] = bool(snaps() == snap0 and [T.snap(nested), T.snap(adj), T.snap(fp)] == snap1)
+        except Exception as e:
+            rec['typed_unchanged'] = False
+        if ty.get('data_kind') or ty.get('boots_kind'):
+            # the bookkeeping below wants the canonical objects
+            data = mk(c['data'])
+            boots = [mk(b) for b in c.get('boots', [])]
+            if c.get('extra_mask'):
+                data.mask = np.logical_or(data.mask, m)
+                for b in boots:
+                    b.mask = np.logical_or(b.mask, m)
+    rec['args_unchanged'] = bool([float(t) for t in p0] == p0_list and (nested is None or [int(t) for t in nested] == [int(t) for t in c['nested']])
                                  and (fp is None or [float(t) for t in fp] == [float(t) for t in c['full_params']]))
     p0 = p0_list
     # what the log-likelihood sums over, and the constants of ll
@@ -244,7 +287,7 @@ def main():
         if not c.get('keep_cache'):
             Godambe.cache.clear()
         try:
-            rec = {'hess': op_hess, 'godambe': op_godambe, 'chi2': op_chi2}[c['op']](c)
+            rec = {'hess': op_hess, 'godambe': op_godambe, 'chi2': op_chi2, 'chi2t': T.op_chi2t, 'hesst': T.op_hesst}[c['op']](c)
         except Exception as e:
             import traceback
             rec = {'id': c['id'], 'error': type(e).__name__ + ': ' + str(e)[:300], 'tb': traceback.format_exc()[-1500:]}
